@@ -82,6 +82,9 @@ def run_plan(ctx, plan, cache, content_monitor=True, results_monitor=True, label
         r = ctx.call(w["mode"], req)
         step = f"step {si} ({wid}.{what}{'' if j is None else j})"
         ctx.count("interleaved_steps")
+        if isinstance(r.get("err"), dict) and r["err"].get("variant") == "HarnessNoWriter":
+            ctx.inconc(f"{label} writers: the driver lost its writer handles (restarted after a stall); plan abandoned")
+            return seen
         if ev.is_panic(r) or ev.is_hang(r) or "died" in r:
             ctx.violation(f"{label}|{what}|{w['mode']}|{ev.variant(r)}",
                           f"{label} writers: {step} ended in {ev.brief(r)}", {"plan": desc, "step": si})
